@@ -177,6 +177,9 @@ Fixpoint ans_loop (fuel : nat) (c : cfg) (ms : list rmodel) (l : list Z) (a : an
     | 13 :: m :: k :: r =>
         let '(a', ss) := dec_iid c (get_model ms m) (Z.to_nat k) a in
         ss ++ ans_loop fuel' c ms r a' tw
+    | 23 :: m :: k :: r =>     (* op 13 on a cursor that is flipped twice and turned back: same *)
+        let '(a', ss) := dec_iid c (get_model ms m) (Z.to_nat k) a in
+        ss ++ ans_loop fuel' c ms r a' tw
     | 14 :: r => 0 :: ans_loop fuel' c ms r a tw
     | 17 :: m :: lo :: hi :: r =>
         let '(P, t) := nth (Z.to_nat m) ms (1%N, []) in
